@@ -33,7 +33,7 @@ BINDING = {"assign", "assign_noread", "assign_nl", "aug", "walrus", "for", "def"
            "fromimport", "assign_read_before", "destructure", "withcomp", "global_assign", "global_read",
            "global_aug", "nonlocal_assign", "nonlocal_read", "nonlocal_aug", "param", "param_nl",
            "param_default", "kwonly", "vararg", "walrus_nonlocal", "for_nonlocal", "target", "target_tuple",
-           "param_default_same"}
+           "param_default_same", "lam_vararg", "lam_kwarg", "lam_kwonly", "lam_posonly"}
 
 
 def nontrivial(tree):
